@@ -555,6 +555,7 @@ def create_cmd(rng, scn, slot, kind, net, wt, acct, src=None, flags=None):
         given = scn.account_key(net, wtn, acct, False)
     elif kind in ('axprvs', 'axprvk'):
         given = scn.account_key(net, wtn, acct, True)
+    flags += ''.join(x for x in LIBFLAGS if x in 'AP')      # which library the model has to mirror (see probe_library)
     return 'C:%s:%s:%s:%s:%d:%s:%s:%s:%s' % (slot, kind, net, wt, acct, src if kind in NEEDS_SRC else '-', flags or '-',
                                             given, scn.lang)
 
@@ -566,6 +567,295 @@ def master_kinds_for(scn, have_src):
     if have_src:
         ks += ['xprv']
     return ks
+
+
+# ------------------------------------------------------------------ requests outside the reach of the wallet's key
+# What the library of this run does with three kinds of request (asked once per run, see probe_library): the letters
+# travel in the flags field of every C command so that the model mirrors the library it is compared with, and a
+# replay file is self-contained.
+#   A  keys_for_path of an account-level wallet refuses another network / another account        (fixes/C09-5)
+#   P  the account_id column of a row created from an explicit path is the account the path names  (fixes/C09-6)
+#   C  new_key(s) of a wallet without cosigners refuses a cosigner_id                               (fixes/C09-7)
+#   D  a relative path with as many items as the wallet's key path (no room for the root) is refused (fixes/C09-5)
+#   L  a positive level_offset at or above the depth of an account-level main key is refused         (fixes/C09-5)
+LIBFLAGS = ''
+PROBE_SENTENCE = 'legal winner thank year wave sausage worth useful legal winner thank yellow'
+
+
+def probe_library(rundir):
+    scn = Scn(random.Random(1))
+    scn.words, scn.sentence = PROBE_SENTENCE.split(' '), PROBE_SENTENCE
+    scn.seed = bip39_seed(scn.sentence, '')
+    scn.der = Deriver(scn.seed)
+    acc = scn.account_key('bitcoin', 'segwit', 0, True)
+    req = 'probe %s %s %s' % (scn.seed.hex(), sentence_token(scn.sentence, ''), ' '.join([
+        'C:a:axprvs:bitcoin:s:0:-:-:%s:english' % acc, 'K:a:5:0:-:-:1', 'P:a:r.0.9:-:0:0:-:litecoin',
+        'C:b:seed:bitcoin:s:2:-:-:-:english', 'P:b:r.7.0.3:-:0:0:-:-', 'K:b:-:0:-:-:1:3',
+        'P:a:r.7.0.3:-:0:0:-:-', 'P:a:e:-:0:0:-:-:3', 'P:a:e:-:0:0:-:-:1']))
+    rc, out, err = core.run_impl(IMPL, [req], rundir)
+    if len(out) != 1:
+        return ''
+    t = out[0].split(' ')
+    if len(t) != 9 or not t[0].startswith('C=ok') or not t[3].startswith('C=ok'):
+        return ''
+    fl = ''
+    if t[1].startswith('K=ERR') and t[2].startswith('P=ERR'):
+        fl += 'A'
+    for row in t[4].split('~')[-1].split(';'):
+        r = row.split('|')
+        if len(r) == 14 and r[1] == "m/84'/0'/7'/0/3" and r[4] == '7':
+            fl += 'P'
+    if t[5].startswith('K=ERR'):
+        fl += 'C'
+    if t[6].startswith('P=ERR'):
+        fl += 'D'
+    if t[7].startswith('P=ERR') and t[8].startswith('P=ERR'):
+        fl += 'L'
+    return fl
+
+
+# Known classes of the reach streams (requests the UNCHANGED library answers against the rule; generated only while the
+# class is recorded as known, see _active_known): class id -> what the request looks like
+REACH_KNOWN = ('account_wallet_foreign_account_or_network', 'account_wallet_path_names_account',
+               'explicit_path_account_column', 'explicit_path_purpose_mismatch', 'single_key_wallet_ignores_arguments',
+               'level_offset_above_main_key', 'cosigner_id_without_cosigners', 'multisig_request_outside_cosigner_keys')
+# the letter of LIBFLAGS that says the library answers the requests of a class by the rule
+CLASS_FLAG = {'account_wallet_foreign_account_or_network': 'A', 'explicit_path_account_column': 'P',
+              'cosigner_id_without_cosigners': 'C', 'account_wallet_path_names_account': 'D',
+              'level_offset_above_main_key': 'L'}
+
+
+def _class_mode(cls):
+    """'rule': the library of this run follows the rule on the requests of this class, they belong to the ordinary
+    streams; 'known': it does not and the class is recorded as known, they are generated as a stream of their own;
+    None: neither (the requests are left out: they would only repeat a finding that is reported but not yet recorded)"""
+    if CLASS_FLAG.get(cls, '#') in LIBFLAGS:
+        return 'rule'
+    return 'known' if cls in _active_known() else None
+
+
+def _twice(cmd):
+    return [cmd, cmd]
+
+
+def reach_cmds(rng, scn, level, net, wt, acct, incl=()):
+    """one wallet configuration x every key-handing entry point x arguments that do and do not fit it.
+    level: 'm' master private key (depth 0), 'prv' / 'pub' account-level private / public key (depth 3).
+    incl: the classes of REACH_KNOWN whose requests are mixed in."""
+    if level == 'm':
+        kind = rng.choice(master_kinds_for(scn, False))
+    elif level == 'prv':
+        kind = rng.choice(['axprvs', 'axprvk'])
+    else:
+        kind = rng.choice(['xpubs', 'xpubk'])
+    cmds = [create_cmd(rng, scn, 'a', kind, net, wt, acct, flags=''), 'K:a:-:0:-:-:1', 'K:a:-:1:-:-:2']
+    doge = net.startswith('dogecoin')
+    ows = [w for w in 'lps' if w != wt]
+    ons = _second_nets(net)
+    oa = rng.choice([a for a in (0, 1, 2, 5) if a != acct])
+    own = "%dh.%dh.%dh" % (PURPOSE[WTN[wt]], coin(net), acct)
+    body = []
+    if level == 'm':
+        # a private master reaches every purpose / coin type / account: each request must be answered at ITS path
+        for ow_ in ([] if doge else rng.sample(ows, 2)):
+            body += _twice('K:a:-:0:%s:-:1' % ow_) + ['G:a:-:1:%s:-:2' % ow_, 'P:a:r.0.%d:-:0:0:%s:-' % (rng.randrange(2, 9), ow_),
+                                                        'M:a:-:%s:-' % ow_]
+        if not doge:
+            on = rng.choice(ons)
+            body += ['A:a:-:-:%s' % on] + _twice('K:a:-:0:-:%s:1' % on) + ['P:a:r.1.%d:-:0:0:-:%s' % (rng.randrange(0, 6), on),
+                                                                            'B:a:0:0:%d:-:%s:2' % (rng.randrange(2, 7), on)]
+        body += _twice('K:a:%d:0:-:-:1' % oa) + ['G:a:%d:1:-:-:2' % oa, 'P:a:e:%d:1:%d:-:-' % (oa, rng.randrange(1, 7)),
+                                                 'M:a:%d:-:-' % oa, 'Q:a:%d' % oa, 'Q:a:%d' % acct, 'Q:a:11',
+                                                 'A:a:%d:-:-' % oa, 'A:a:%d:-:-' % acct, 'P:a:r.1.2.3.4.5.6:-:0:0:-:-',
+                                                 'P:a:f.m.%s.1.%d:%d:0:0:-:-' % (own, rng.randrange(0, 9), acct)]
+        if acct == 0 or 'explicit_path_account_column' in incl:
+            # a relative / full path that names another account: the path wins (documented), the row is account 7's
+            # and the next new key of account 7 follows it
+            body += ['P:a:r.7.0.0:-:0:0:-:-', 'P:a:r.7.0.1:-:0:0:-:-', 'K:a:7:0:-:-:1', 'L:a:k:7:-:-:-:-:-',
+                     'P:a:f.m.%dh.%dh.6h.0.2:6:0:0:-:-' % (PURPOSE[WTN[wt]], coin(net)), 'K:a:6:0:-:-:1']
+        if 'explicit_path_account_column' in incl:
+            body += ['P:a:f.m.%dh.%dh.8h.1.0:-:0:0:-:-' % (PURPOSE[WTN[wt]], coin(net)), 'K:a:8:1:-:-:1', 'Q:a:7']
+        if 'explicit_path_purpose_mismatch' in incl and not doge:
+            # a full path under another purpose without naming the witness type
+            body += ['P:a:f.m.%dh.%dh.%dh.0.4:-:0:0:-:-' % (PURPOSE[WTN[rng.choice(ows)]], coin(net), acct)]
+    else:
+        # an account-level key reaches only its own change / index levels
+        for ow_ in rng.sample(ows, 2):
+            body += _twice('K:a:-:0:%s:-:1' % ow_) + ['K:a:-:1:%s:-:1' % ow_, 'K:a:-:0:%s:-:3' % ow_, 'G:a:-:0:%s:-:1' % ow_,
+                                                        'G:a:-:1:%s:-:2' % ow_, 'P:a:r.0.%d:-:0:0:%s:-' % (rng.randrange(0, 9), ow_),
+                                                        'P:a:e:-:1:%d:%s:-' % (rng.randrange(0, 9), ow_),
+                                                        'P:a:s.1.%d:-:0:0:%s:-' % (rng.randrange(0, 9), ow_),
+                                                        'P:a:f.M.0.%d:-:0:0:%s:-' % (rng.randrange(0, 9), ow_),
+                                                        'B:a:-:0:%d:%s:-:2' % (rng.randrange(0, 9), ow_), 'M:a:-:%s:-' % ow_,
+                                                        'A:a:-:%s:-' % ow_]
+        if ons:
+            on = rng.choice(ons)
+            body += _twice('K:a:-:0:-:%s:1' % on) + ['G:a:-:1:-:%s:1' % on, 'K:a:-:0:-:%s:2' % on, 'M:a:-:-:%s' % on,
+                                                      'A:a:-:-:%s' % on]
+        body += ['A:a:-:-:-', 'A:a:%d:-:-' % oa, 'Q:a:%d' % acct, 'Q:a:%d' % oa,
+                 'P:a:f.m.%s.0.%d:-:0:0:-:-' % (own, rng.randrange(0, 9)), 'P:a:f.M.1.%d:-:0:0:-:-' % rng.randrange(0, 9),
+                 'P:a:r.1.2.3.4.5.6:-:0:0:-:-', 'K:a:%d:0:-:-:1' % acct, 'G:a:%d:1:-:-:2' % acct, 'M:a:%d:-:-' % acct]
+        if level == 'pub':
+            body += ['P:a:r.0.%dh:-:0:0:-:-' % rng.randrange(0, 9), 'P:a:s.1h.%d:-:0:0:-:-' % rng.randrange(0, 9)]
+        if 'account_wallet_foreign_account_or_network' in incl:
+            kb = _twice('K:a:%d:0:-:-:1' % oa) + ['K:a:%d:1:-:-:2' % oa, 'G:a:%d:0:-:-:2' % oa,
+                                                   'P:a:r.0.%d:%d:0:0:-:-' % (rng.randrange(2, 9), oa),
+                                                   'B:a:%d:1:%d:-:-:2' % (oa, rng.randrange(2, 9)), 'M:a:%d:-:-' % oa]
+            if ons:
+                on = rng.choice(ons)
+                kb += ['P:a:r.0.%d:-:0:0:-:%s' % (rng.randrange(10, 19), on), 'B:a:-:1:%d:-:%s:2' % (rng.randrange(10, 19), on)]
+            body += kb
+    rng.shuffle(body)
+    if rng.random() < 0.5:
+        body.insert(rng.randrange(len(body) + 1), 'R:a')
+    # the wallet's own chains are as they were
+    cmds += body + ['K:a:-:0:-:-:1', 'K:a:-:1:-:-:1', 'G:a:-:0:-:-:2', 'D:a']
+    return cmds
+
+
+def gen_reach(rng, big):
+    cs = []
+    active = _active_known()
+    n = 0
+    combos = []
+    for level in ('prv', 'pub', 'm'):
+        for net in NET_NAMES:
+            for wt in 'lps':
+                if net.startswith('dogecoin') and wt != 'l':
+                    continue
+                combos.append((level, net, wt))
+    rng.shuffle(combos)
+    # quick: every level x witness type at least twice, networks rotating; thorough: every combination several times
+    if not big:
+        seen, pick = {}, []
+        for cb in combos:
+            k = (cb[0], cb[2])
+            if seen.get(k, 0) < (3 if cb[0] != 'm' else 1):
+                seen[k] = seen.get(k, 0) + 1
+                pick.append(cb)
+        combos = pick
+    else:
+        combos = combos * 3
+    run_classes = ('account_wallet_foreign_account_or_network', 'explicit_path_account_column',
+                   'explicit_path_purpose_mismatch')
+    rule = tuple(c for c in run_classes if _class_mode(c) == 'rule')
+    for j, (level, net, wt) in enumerate(combos):
+        scn = Scn(rng, password='' if rng.random() < 0.8 else _password(rng))
+        acct = [0, 2, 1, 0, 3][j % 5]
+        scn.cmds = reach_cmds(rng, scn, level, net, wt, acct, incl=rule)
+        cs.append(Case('reach_' + level, scn.req(), meta=('run',)))
+    for cls in run_classes:
+        if _class_mode(cls) != 'known':
+            continue
+        levels = ('prv', 'pub') if cls.startswith('account_wallet') else ('m',)
+        for j in range(40 if big else 3):
+            scn = Scn(rng)
+            net = rng.choice(['bitcoin', 'testnet', 'litecoin', 'bitcoinlib_test'])
+            scn.cmds = reach_cmds(rng, scn, levels[j % len(levels)], net, 'lps'[j % 3], [2, 1, 3][j % 3], incl=rule + (cls,))
+            cs.append(Case('reach_known_' + cls, scn.req(), meta=('run',)))
+    # --- configurations and arguments outside the key book model: judged by the independent oracle alone
+    cs += gen_probe(rng, big)
+    return cs
+
+
+def probe_cmds(rng, scn, what, net, wt, acct, incl=()):
+    """requests on configurations / with arguments the key book model does not cover"""
+    ows = [w for w in 'lps' if w != wt]
+    ons = _second_nets(net)
+    oa = rng.choice([a for a in (0, 1, 2, 5) if a != acct])
+    if what == 'single':
+        cmds = [create_cmd(rng, scn, 'a', 'single', net, wt, acct, flags=''), 'K:a:-:0:-:-:1', 'G:a:-:0:-:-:1', 'M:a:-:-:-',
+                'K:a:%d:0:-:-:1' % acct, 'G:a:-:0:-:-:2', 'A:a:-:-:-', 'Q:a:%d' % acct, 'P:a:r.0.3:-:0:0:-:-',
+                'P:a:f.m.%dh.%dh.%dh.0.1:-:0:0:-:-' % (PURPOSE[WTN[wt]], coin(net), acct), 'R:a']
+        if 'single_key_wallet_ignores_arguments' in incl:
+            ow_ = rng.choice(ows)
+            cmds += ['K:a:-:0:%s:-:1' % ow_, 'G:a:-:0:%s:-:1' % ow_, 'K:a:%d:0:-:-:1' % oa, 'G:a:%d:0:-:-:1' % oa,
+                     'M:a:-:%s:-' % ow_, 'M:a:%d:-:-' % oa, 'K:a:-:0:-:-:1:2']
+            if ons:
+                cmds += ['K:a:-:0:-:%s:1' % ons[0], 'G:a:-:0:-:%s:1' % ons[0], 'M:a:-:-:%s' % ons[0]]
+        return cmds + ['K:a:-:0:-:-:1', 'D:a']
+    level = what
+    if level == 'm':
+        kind = rng.choice(master_kinds_for(scn, False))
+    else:
+        kind = rng.choice(['axprvs', 'axprvk'] if level == 'prv' else ['xpubs', 'xpubk'])
+    cmds = [create_cmd(rng, scn, 'a', kind, net, wt, acct, flags=''), 'K:a:-:0:-:-:1', 'K:a:-:1:-:-:1']
+    body = []
+    if level == 'm':
+        # every level of the documented path, both ways of naming it; a path rooted at M does not exist here
+        body += ['P:a:e:-:%d:%d:-:-:%d' % (rng.randrange(0, 2), rng.randrange(0, 5), lo) for lo in (-1, -2, -3, -4, -5, 1, 2, 3, 4, 5, 6)]
+        body += ['P:a:e:%d:0:0:%s:-:-2' % (oa, rng.choice(ows) if not net.startswith('dogecoin') else '-'),
+                 'P:a:f.M.0.4:-:0:0:-:-']
+    else:
+        body += ['P:a:e:-:%d:%d:-:-:%d' % (rng.randrange(0, 2), rng.randrange(0, 5), lo) for lo in (-1, -2, -3, 4, 5, 6)]
+        body += ['P:a:e:-:0:0:%s:-:-2' % rng.choice(ows), 'P:a:e:-:0:0:%s:-:4' % rng.choice(ows)]
+        if 'level_offset_above_main_key' in incl:
+            body += ['P:a:e:-:0:%d:-:-:%d' % (rng.randrange(0, 5), lo) for lo in (1, 2, 3)]
+        if 'account_wallet_path_names_account' in incl:
+            body += ['P:a:r.%d.0.%d:-:0:0:-:-' % (oa, rng.randrange(0, 9)), 'P:a:r.%d.1.%d:-:0:0:-:-' % (acct, rng.randrange(0, 9)),
+                     'P:a:s.%dh.0.%d:-:0:0:-:-' % (oa, rng.randrange(0, 9))]
+    if 'cosigner_id_without_cosigners' in incl:
+        body += _twice('K:a:-:0:-:-:1:%d' % rng.choice([0, 1, 3])) + ['K:a:-:1:-:-:2:1', 'G:a:-:0:-:-:1:%d' % rng.choice([1, 3]),
+                                                                         'G:a:-:0:-:-:1:0']
+    rng.shuffle(body)
+    return cmds + body + ['K:a:-:0:-:-:1', 'K:a:-:1:-:-:1', 'D:a']
+
+
+def gen_probe(rng, big):
+    cs = []
+    classes = ('single_key_wallet_ignores_arguments', 'level_offset_above_main_key', 'cosigner_id_without_cosigners',
+               'account_wallet_path_names_account')
+    rule = tuple(c for c in classes if _class_mode(c) == 'rule')
+    nets = ['bitcoin', 'testnet', 'litecoin', 'bitcoinlib_test', 'litecoin_testnet', 'dogecoin', 'regtest', 'signet']
+    whats = ['single', 'm', 'prv', 'pub']
+    for j in range(120 if big else 8):
+        what = whats[j % 4]
+        net = nets[(j // 4 + j) % len(nets)]
+        wt = 'l' if net.startswith('dogecoin') else 'lps'[(j // 2) % 3]
+        scn = Scn(rng)
+        scn.cmds = probe_cmds(rng, scn, what, net, wt, [0, 2, 1][j % 3], incl=rule)
+        cs.append(Case('probe_' + what, 'probe' + scn.req()[3:], meta=('run',)))
+    # multisig cosigner wallets: requests the cosigners' keys cannot reach
+    ms_known = _class_mode('multisig_request_outside_cosigner_keys') == 'known'
+    for j in range((60 if big else 4) + ((30 if big else 3) if ms_known else 0)):
+        known = j >= (60 if big else 4)
+        seed = bytes(rng.randrange(256) for _ in range(32))
+        net = ['bitcoin', 'testnet', 'litecoin', 'bitcoinlib_test'][j % 4]
+        wt = 'lps'[(j // 2 + j) % 3]
+        n = rng.choice([2, 3])
+        m = rng.randrange(1, n + 1)
+        own = rng.randrange(n)
+        on = rng.choice(_second_nets(net))
+        cmds = ['C:a:%s:%s:%d:%d:%d' % (net, wt, n, m, own), 'K:a:0:-:1', 'K:a:1:-:1', 'G:a:0:1']
+        # (BIP45 paths m/45'/cosigner/change/index carry no coin type: another network is not a question of reach there)
+        body = ['G:a:0:1:%d' % (n + 1 + rng.randrange(3)), 'K:a:0:-:1', 'R:a']
+        if wt != 'l':
+            body += _twice('K:a:0:-:1:-:%s' % on) + ['G:a:0:1:-:-:%s' % on]
+        if known and wt != 'l':
+            body += ['P:a:0:%d:-:%s' % (rng.randrange(1, 6), on)]
+        if known:
+            ow_ = rng.choice([w for w in 'lps' if w != wt])
+            oc = rng.choice([c for c in range(n) if c != own])
+            body += _twice('K:a:0:-:1:%s' % ow_) + ['G:a:1:1:-:%s' % ow_, 'P:a:0:%d:%s' % (rng.randrange(1, 6), ow_)] + \
+                _twice('K:a:0:-:1:-:-:%d' % rng.randrange(1, 4)) + ['G:a:0:1:-:-:-:2', 'P:a:1:2:-:-:3',
+                                                                   'K:a:0:%d:1' % n, 'K:a:0:-1:1', 'G:a:0:1:%d' % n]
+            if wt != 'l':
+                body += _twice('K:a:0:%d:1' % oc) + ['G:a:0:1:%d' % oc]
+        rng.shuffle(body)
+        cmds += body + ['K:a:0:-:1', 'K:a:1:-:1']
+        cs.append(Case('multisig_reach_known' if known else 'multisig_reach', 'msrun %s %s' % (seed.hex(), ' '.join(cmds)),
+                       meta=('msrun',)))
+    for cls in classes:
+        if _class_mode(cls) != 'known':
+            continue
+        for j in range(20 if big else 2):
+            what = 'single' if cls.startswith('single') else (['prv', 'pub'][j % 2] if cls != 'cosigner_id_without_cosigners'
+                                                               else whats[1 + j % 3])
+            net = nets[j % 4]
+            scn = Scn(rng)
+            scn.cmds = probe_cmds(rng, scn, what, net, 'lps'[j % 3], [0, 2][j % 2], incl=rule + (cls,))
+            cs.append(Case('probe_known_' + cls, 'probe' + scn.req()[3:], meta=('run',)))
+    return cs
 
 
 def gen_cases(rng, tier):
@@ -737,6 +1027,8 @@ def gen_cases(rng, tier):
             scn.cmds.append('D:%s' % slot)
         scn.cmds.append('D:a')
         cs.append(Case('history_explicit' if explicit else 'history_implicit', scn.req(), meta=('run',)))
+    # --- wallet configurations x entry points x arguments that do not fit the configuration (must be refused)
+    cs += gen_reach(rng, big)
     return cs
 
 
@@ -772,6 +1064,28 @@ class OW(object):
 
     def chain(self, key):
         return self.expect.setdefault(key, set())
+
+    def doc_path(self, wt, net, acct, chg=None, idx=None):
+        """the documented BIP44/49/84 path of a request"""
+        p = [(PURPOSE[wt], True), (coin(net), True), (acct, True)]
+        if chg is not None:
+            p += [(chg, False), (idx if idx is not None else 'i', False)]
+        return p
+
+    def reach(self, wt, net, acct):
+        """BIP32 alone decides what a wallet can hand out: a key can be derived only from key material held ABOVE its
+        path.  A private master key of depth 0 lies above every purpose' / coin_type' / account' branch; an
+        account-level key (m/purpose'/coin'/account') lies above nothing but its own change / index levels, so a
+        request for another witness type (purpose), network (coin type) or account must be refused."""
+        if self.master:
+            return True
+        return wt == self.wt and net == self.net and acct == self.acct
+
+    def outside(self, cmd, wt, net, acct, got):
+        a = 'a\'' if acct is None else '%d\'' % acct
+        return ('%s: the wallet holds only the %s account key m/%d\'/%d\'/%d\' and cannot derive m/%d\'/%d\'/%s/...; the '
+                'request must be refused, it returned %s' % (cmd, 'private' if self.private else 'public', PURPOSE[self.wt],
+                                                             coin(self.net), self.acct, PURPOSE[wt], coin(net), a, got[:90]))
 
     def used_paths(self):
         return set(r.ap for r in self.rows.values() if r.used)
@@ -985,6 +1299,121 @@ def _snapshot(der, ow, snap, expect_new, used_id):
     return None
 
 
+def _single_check(sw, f, cmd, val, snap):
+    """a single-key wallet (scheme 'single'): it can hand out its one key and nothing else; a request that names
+    another witness type, network, account, cosigner, or any path / index / account operation must be refused"""
+    _, net, wt, acct, kid, path_s, addr = sw
+    if snap is not None:
+        rows = snap.split(';')
+        if len(rows) != 1 or rows[0].split('/')[0] != kid or '|' in rows[0]:
+            return 'after %s the single-key wallet holds the key table %s' % (cmd, snap[:120])
+    if f[0] in ('R', 'D', 'L', 'U', 'X', 'S'):
+        return None
+    if val == 'ERR':
+        return None
+    fits = False
+    if f[0] in 'KG':
+        fits = (f[2] in ('-', str(acct)) and f[4] in ('-', WTL[wt]) and f[5] in ('-', net) and
+                (len(f) < 8 or f[7] == '-'))
+    elif f[0] == 'M':
+        fits = f[2] in ('-', str(acct)) and f[3] in ('-', WTL[wt]) and f[4] in ('-', net)
+    elif f[0] == 'P':
+        fits = f[2] == 'e' and f[3] in ('-', str(acct)) and f[6] in ('-', WTL[wt]) and f[7] in ('-', net) and \
+            (len(f) < 9 or f[8] == '-')
+    if not fits:
+        return ('%s: a single-key wallet (%s, %s, account %d) holds one key and derives nothing; the request does not '
+                'fit it and must be refused, it returned %s' % (cmd, wt, net, acct, val[:90]))
+    for k in val.split(','):
+        kf = k.split('|')
+        if kf[0] not in ('m', 'M') or (f[0] != 'M' and kf[1] != addr):
+            return '%s: the single-key wallet handed out %s' % (cmd, k[:90])
+    return None
+
+
+def _level_offset_check(der, ow, f, cmd, val):
+    """key_for_path([], level_offset=lo): the documented path cut to a level - lo < 0 drops the last |lo| levels, lo > 0
+    keeps the first lo items of m/purpose'/coin_type'/account'/change/address_index counting the root (1 = the master
+    key, 4 = the account key).  The wallet can hand that key out only if it lies at or below its main key."""
+    lo = int(f[8])
+    kind, D, wt, net, a, chg, idx, conflict = _p_target(ow, f, val)
+    if f[2] != 'e' or kind != 'leaf':
+        return None if val == 'ERR' else '%s: a path together with a level offset was answered with %s' % (cmd, val[:80])
+    depth = 5 + lo if lo < 0 else lo - 1
+    if depth < 0 or depth > 5:
+        return None if val == 'ERR' else '%s names no level of the key path, it returned %s' % (cmd, val[:90])
+    T = D[:depth]
+    ok = ow.reach(wt, net, a) and depth >= len(ow.base)
+    if not ow.master and depth < 3:
+        ok = False
+    if not ok:
+        if val != 'ERR':
+            return ('%s: level %d of the key path (%s) lies above the wallet\'s main key (depth %d); the request must be '
+                    'refused, it returned %s' % (cmd, depth, 'm/' + '/'.join('%d%s' % (v, "'" if h else '') for v, h in T),
+                                                 len(ow.base), val[:90]))
+        return None
+    if val == 'ERR':
+        return '%s refused' % cmd
+    kf = val.split('|')
+    pp = parse_path(kf[0])
+    ap = _abs(ow, pp[0], pp[1]) if pp else None
+    if ap is None or tuple(ap) != tuple(T):
+        return '%s returned the key at %s, level %d of the documented path is m/%s' % (
+            cmd, kf[0], depth, '/'.join('%d%s' % (v, "'" if h else '') for v, h in T))
+    if depth == 5:
+        return _leaf(der, ow, val, wt, net, a, chg, idx)[0]
+    return _material(der, ow, ap, kf, wt, net)
+
+
+def _p_items(tokens):
+    return [(int(t[:-1]), True) if t.endswith('h') else (int(t), False) for t in tokens]
+
+
+def _p_target(ow, f, val='ERR'):
+    """What a key_for_path request names, from the documented rules alone: a relative path replaces the LAST levels of
+    the wallet's key path (m/purpose'/coin_type'/account'/change/address_index for a wallet with a master key,
+    M/change/address_index below an account-level key), the other levels come from the arguments; a level is hardened
+    when the path says so or the key path has it hardened; values in the path take precedence over arguments.
+    Returns (kind, D, witness type, network, account, change, index, conflict): kind 'refuse' when the request names
+    no address key of the wallet's key path at all, else 'leaf' with D the absolute documented position."""
+    spec, acct, chg, idx, wt_arg, net_arg = f[2], f[3], int(f[4]), int(f[5]), f[6], f[7]
+    wt = WTN[wt_arg] if wt_arg != '-' else ow.wt
+    net = net_arg if net_arg != '-' else ow.net
+    if acct != '-':
+        a = int(acct)
+    elif net == ow.net:
+        a = ow.acct
+    else:
+        # another network without an account number: "the first account it finds" on that network, 0 when none
+        a = 0
+        pp = parse_path(val.split('|')[0]) if val != 'ERR' else None
+        if pp and len(pp[1]) == 5 and pp[1][2][0] in ow.accounts.get((wt, net), set()):
+            a = pp[1][2][0]
+    parts = spec.split('.')
+    levels = 5 if ow.master else 2
+    if parts[0] == 'f':
+        root, items = parts[1], _p_items(parts[2:])
+        if root != ('m' if ow.master else 'M') or len(items) != levels:
+            return 'refuse', spec, wt, net, a, chg, idx, False
+    else:
+        items = _p_items(parts[1:]) if parts[0] in 'rs' else []
+        if len(items) > levels:
+            return 'refuse', spec, wt, net, a, chg, idx, False
+    full = [(PURPOSE[wt], True), (coin(net), True), (a, True), (chg, False), (idx, False)]
+    k = 5 - len(items)
+    D = full[:k] + [(v, h or full[k + j][1]) for j, (v, h) in enumerate(items)]
+    (p, ph), (c, ch), (a2, ah), (g, gh), (i, ih) = D
+    conflict = False
+    if gh or ih:
+        # hardened change / index levels are no documented BIP44 position; below a public key they cannot be derived at all
+        return 'refuse', D, wt, net, a, chg, idx, False
+    wts = [w for w, v in PURPOSE.items() if v == p]
+    if not wts:
+        return 'refuse', D, wt, net, a, chg, idx, False
+    if wts[0] != wt or c != coin(net):
+        conflict = True           # the path names another purpose / coin type than the arguments: refusing is fine
+    return 'leaf', D, wts[0], net, a2, g, i, conflict
+
+
 def _compact(row):
     return [str(row.id), str(row.acct), row.chg, str(row.idx), str(row.depth), str(int(row.used)), WTL[row.wt], row.net]
 
@@ -996,11 +1425,13 @@ def _ap_of_tok(ow, tok):
 
 
 def prop_check(c, out):
-    if 'CRASH' in out or out == 'BADREQ' or 'BADKEY' in out:
+    if out == 'BADREQ' or 'BADKEY' in out or out.startswith('CRASH'):
         return 'unexpected answer %r' % out[:160]
     m = c.meta or ('run',)
     if c.req.startswith('msrun '):
         return ms_check(c, out)
+    if m[0] == 'expand' and 'CRASH' in out:
+        return 'unexpected answer %r' % out[:160]
     if m[0] == 'expand':
         _, wt, ms, net, a, ch, i, co = m
         cn = coin(net)
@@ -1030,6 +1461,9 @@ def prop_check(c, out):
         op, val = tok.split('=', 1)
         if op != f[0]:
             return 'answer token %r does not belong to command %r' % (tok[:40], cmd)
+        if val.startswith('CRASH'):
+            # judged where it happens: everything before it was checked command by command
+            return 'the library failed with an unexpected exception on %s: %s' % (cmd, val[:60])
         snap = None
         if '~' in val:
             val, snap = val.split('~', 1)
@@ -1046,6 +1480,17 @@ def prop_check(c, out):
                 return 'Wallet.create refused a valid request (%s)' % cmd[:120]
             if refuse:
                 return 'Wallet.create accepted %s on %s' % (wt, net)
+            if kind == 'single':
+                # one key, no derivation: the table is that key for ever
+                rows = (snap or '').split(';')
+                first = rows[0].split('|')
+                x0 = der.at(())
+                if len(rows) != 1 or len(first) != 14 or first[1] not in ('m', 'M'):
+                    return 'a single-key wallet was created with the key table %s' % (snap or '')[:120]
+                if first[2] != _address(net, wt, x0.pt):
+                    return 'single-key wallet has address %s, the key gives %s' % (first[2], _address(net, wt, x0.pt))
+                ws[slot] = ('single', net, wt, acct, first[0], first[1], first[2])
+                continue
             ow = OW(kind, net, wt, acct)
             ws[slot] = ow
             ow.chain((wt, net, acct, 0)).add(0)
@@ -1071,29 +1516,43 @@ def prop_check(c, out):
         if f[1] not in ws:
             continue
         ow = ws[f[1]]
-        if f[0] in ('K', 'G', 'B'):
+        if isinstance(ow, tuple):
+            e = _single_check(ow, f, cmd, val, snap)
+            if e:
+                return e
+            continue
+        if f[0] in 'KG' and len(f) > 7 and f[7] != '-':
+            # a wallet without cosigners has no cosigner positions: whatever number is passed is out of range
+            if val != 'ERR':
+                return ('%s: cosigner_id %s on a wallet that has no cosigners must be refused, it returned %s' %
+                        (cmd, f[7], val[:90]))
+        elif f[0] == 'P' and len(f) > 8 and f[8] != '-' and int(f[8]) not in (0, 6):      # 6 = the whole key path
+            e = _level_offset_check(der, ow, f, cmd, val)
+            if e:
+                return e
+        elif f[0] in ('K', 'G', 'B'):
             if f[0] == 'B':
                 acct, chg, first, wt, net, n = f[2], int(f[3]), int(f[4]), f[5], f[6], int(f[7])
             else:
                 acct, chg, wt, net, n = f[2], int(f[3]), f[4], f[5], int(f[6])
             wt = WTN[wt] if wt != '-' else ow.wt
             net = net if net != '-' else ow.net
-            foreign = wt != ow.wt or net != ow.net
+            if acct != '-':
+                acct = int(acct)
+            elif net == ow.net:
+                acct = ow.acct
+            else:
+                acct = None       # any existing account of that network
+            reachable = ow.reach(wt, net, acct)
             if val == 'ERR':
-                if not (foreign and not ow.master):
+                if reachable:
                     return 'a valid key request was refused: %s' % cmd
-            elif foreign and not ow.master:
-                return 'an account-level wallet handed out keys of another witness type / network: %s' % cmd
+            elif not reachable:
+                return ow.outside(cmd, wt, net, acct, val)
             else:
                 keys = [] if val == '-' else val.split(',')
                 if len(keys) != n:
                     return '%s returned %d keys, %d requested' % (cmd, len(keys), n)
-                if acct != '-':
-                    acct = int(acct)
-                elif net == ow.net:
-                    acct = ow.acct
-                else:
-                    acct = None       # any existing account of that network
                 got = []
                 for k in keys:
                     a = acct
@@ -1102,8 +1561,6 @@ def prop_check(c, out):
                         a = pp[1][2][0] if pp and len(pp[1]) == 5 else -1
                         if a not in ow.accounts.get((wt, net), set()) and a != 0:
                             return 'key %s handed out for an account that does not exist on %s' % (k.split('|')[0], net)
-                    if not ow.master and a != ow.acct:
-                        a = ow.acct       # an account-level wallet has one account, whatever number is passed
                     err, r = _leaf(der, ow, k, wt, net, a, chg)
                     if err:
                         return err
@@ -1151,23 +1608,28 @@ def prop_check(c, out):
             acct, wt, net = f[2], f[3], f[4]
             wt = WTN[wt] if wt != '-' else ow.wt
             net = net if net != '-' else ow.net
-            foreign = wt != ow.wt or net != ow.net
             ok = True
             if f[0] == 'A':
+                # a new account key m/purpose'/coin'/n' is a hardened child two levels below the purpose key: only a
+                # wallet that holds the private master can make one
                 exists = acct != '-' and int(acct) in ow.accounts.get((wt, net), set())
                 if val == 'ERR':
                     if not (not ow.master or exists):
                         return 'new_account refused a valid request: %s' % cmd
                     ok = False
                 elif not ow.master or exists:
-                    return 'new_account succeeded where it must refuse: %s' % cmd
+                    return 'new_account succeeded where it must refuse: %s -> %s' % (cmd, val[:80])
                 else:
                     path_s, addr, wif, idx = val.split('|')
             else:
+                a_req = int(acct) if acct != '-' else (ow.acct if net == ow.net else None)
+                reachable = ow.reach(wt, net, a_req)
                 if val == 'ERR':
-                    if not (foreign and not ow.master):
+                    if reachable:
                         return 'public_master refused: %s' % cmd
                     ok = False
+                elif not reachable:
+                    return ow.outside(cmd, wt, net, a_req, val)
                 else:
                     path_s, wif = val.split('|')
             if ok:
@@ -1177,7 +1639,7 @@ def prop_check(c, out):
                         ap[1][0] != coin(net):
                     return 'account key of (%s, %s) lies at %s' % (wt, net, path_s)
                 a = ap[2][0]
-                if acct != '-' and a != int(acct) and ow.master:
+                if acct != '-' and a != int(acct):
                     return 'account %s requested, key at %s returned' % (acct, path_s)
                 if f[0] == 'A' and a in ow.accounts.get((wt, net), set()):
                     return 'new_account returned the existing account %d' % a
@@ -1204,24 +1666,18 @@ def prop_check(c, out):
                         return 'public_master().wif at %s is %s…, derivation gives %s…' % (path_s, wif[:20], pub[:20])
                 ow.accounts.setdefault((wt, net), set()).add(a)
         elif f[0] == 'P':
-            spec, acct, chg, idx, wt, net = f[2], f[3], int(f[4]), int(f[5]), f[6], f[7]
-            wt = WTN[wt] if wt != '-' else ow.wt
-            net = net if net != '-' else ow.net
-            if val == 'ERR':
-                if not (wt != ow.wt and not ow.master):
+            kind, D, wt, net, a, chg, idx, conflict = _p_target(ow, f, val)
+            if kind == 'refuse':
+                if val != 'ERR':
+                    return ('key_for_path(%s) names no documented key path of this wallet (%s) and must be refused; it '
+                            'returned %s' % (cmd, D, val[:90]))
+            elif not ow.reach(wt, net, a):
+                if val != 'ERR':
+                    return ow.outside(cmd, wt, net, a, val)
+            elif val == 'ERR':
+                if not conflict:
                     return 'key_for_path refused: %s' % cmd
             else:
-                a = int(acct) if acct != '-' else ow.acct
-                if not ow.master:
-                    a = ow.acct
-                parts = spec.split('.')
-                if parts[0] in 'rs' and len(parts) == 3:
-                    chg, idx = int(parts[1]), int(parts[2])
-                elif parts[0] in 'rs':          # only the index is named; the change flag is the argument
-                    idx = int(parts[1])
-                elif parts[0] == 'f':
-                    wtp = [w for w, v in PURPOSE.items() if v == int(parts[2][:-1])][0]
-                    wt, a, chg, idx = wtp, int(parts[4][:-1]), int(parts[5]), int(parts[6])
                 err, r = _leaf(der, ow, val, wt, net, a, chg, idx)
                 if err:
                     return err
@@ -1230,6 +1686,24 @@ def prop_check(c, out):
                 ow.chain((wt, net, a, chg)).add(idx)
                 ow.requested.setdefault((wt, net, a, chg), set()).add(idx)
                 ow.accounts.setdefault((wt, net), set()).add(a)
+        elif f[0] == 'Q':
+            # Wallet.account(n): the account key m/purpose'/coin'/n' of the wallet's own witness type and network, when
+            # the wallet has that account; never a new key
+            a = int(f[2])
+            if val != 'ERR':
+                path_s = val.split('|')[0]
+                pp = parse_path(path_s)
+                ap = _abs(ow, pp[0], pp[1]) if pp else None
+                if ap is None or tuple(ap) != tuple(ow.doc_path(ow.wt, ow.net, a)):
+                    return 'account(%d) returned the key at %s' % (a, path_s)
+                if not ow.reach(ow.wt, ow.net, a):
+                    return ow.outside(cmd, ow.wt, ow.net, a, val)
+                e = _material(der, ow, ap, val.split('|'), ow.wt, ow.net)
+                if e:
+                    return e
+            elif ow.master and a in ow.accounts.get((ow.wt, ow.net), set()) and \
+                    tuple(ow.doc_path(ow.wt, ow.net, a)) in ow.by_path:
+                return 'account(%d) refused although the wallet has that account' % a
         elif f[0] == 'X':
             path_s, addr = val.split('|')
             pp = parse_path(path_s)
@@ -1345,6 +1819,8 @@ def prop_check(c, out):
     # restored wallets reproduce the same addresses (same absolute position -> same address)
     pos = {}
     for slot, ow in ws.items():
+        if isinstance(ow, tuple):
+            continue
         for row in ow.rows.values():
             if len(row.ap) == 5:
                 key = (row.ap, row.wt, row.net)
@@ -1378,7 +1854,7 @@ def ms_check(c, out):
     type, account 0, change, index[, cosigner]), its address is the m-of-n script address over the cosigners' BIP32
     keys at that path, indices are issued without gaps or repeats, no two keys share an address; checked on the
     wallet's whole key table after every command"""
-    if 'CRASH' in out or out == 'BADREQ':
+    if out == 'BADREQ' or out.startswith('CRASH'):
         return 'unexpected answer %r' % out[:160]
     t = c.req.split(' ')
     seed = bytes.fromhex(t[1])
@@ -1389,6 +1865,8 @@ def ms_check(c, out):
     for cmd, tok in zip(cmds, toks):
         f = cmd.split(':')
         op, val = tok.split('=', 1)
+        if 'CRASH' in val:
+            return 'the library failed with an unexpected exception on %s: %s' % (cmd, val[:60])
         snap = None
         if '~' in val:
             val, snap = val.split('~', 1)
@@ -1421,16 +1899,40 @@ def ms_check(c, out):
             path_s = 'm/' + '/'.join('%d%s' % (v, "'" if h else '') for v, h in ap)
             return path_s, _ms_address(W['net'], W['wt'], _ms_script(W['m'], pubs))
         new_expected, used_id = {}, None       # path -> (idx, chg, cos) of the rows this command may add
+        misfit = None
         if f[0] in ('K', 'G', 'P'):
+            # optional arguments: another witness type / network / account, a cosigner position.  The wallet holds ONE
+            # master key (its own) and account-level PUBLIC keys of the other cosigners (m/48'/coin'/0'/script' or
+            # m/45'): keys of another script type, coin type or account cannot be derived from those, and a cosigner
+            # position outside 0..n-1 does not exist
+            xi = {'K': 5, 'G': 5, 'P': 4}[f[0]]
+            xs = (f[xi:xi + 3] + ['-', '-', '-'])[:3]
+            cos_s = f[3] if f[0] == 'K' else (f[4] if f[0] == 'G' and len(f) > 4 else '-')
+            if xs[0] != '-' and WTN[xs[0]] != W['wt']:
+                misfit = 'witness type %s' % WTN[xs[0]]
+            elif xs[1] != '-' and xs[1] != W['net']:
+                misfit = 'network %s' % xs[1]
+            elif xs[2] != '-' and int(xs[2]) != 0:
+                misfit = 'account %s' % xs[2]
+            elif cos_s != '-' and not (0 <= int(cos_s) < W['n']):
+                misfit = 'cosigner position %s of %d' % (cos_s, W['n'])
+        if misfit:
+            if val != 'ERR':
+                return ('%s asks for %s, which the cosigner keys of this wallet cannot reach; it must be refused, it '
+                        'returned %s' % (cmd, misfit, val[:100]))
+        elif f[0] in ('K', 'G', 'P'):
             if val == 'ERR':
                 return 'a valid key request was refused: %s' % cmd
             keys = [k.split('|') for k in val.split(',')]
             if f[0] == 'K':
                 chg, cos, n = int(f[2]), (W['own'] if f[3] == '-' else int(f[3])), int(f[4])
             elif f[0] == 'G':
-                chg, cos, n = int(f[2]), W['own'], int(f[3])
+                chg, cos, n = int(f[2]), (W['own'] if cos_s == '-' else int(cos_s)), int(f[3])
             else:
                 chg, cos, n = int(f[2]), W['own'], 1
+            named_cos = cos
+            if not W['bip45']:
+                cos = W['own']      # BIP48 paths have no cosigner level: one chain per change flag, whoever is named
             if len(keys) != n:
                 return '%s returned %d keys' % (cmd, len(keys))
             chain = W['chains'].setdefault((chg, cos), set())
@@ -1461,12 +1963,12 @@ def ms_check(c, out):
                 if addr != want_addr:
                     return 'multisig key at %s has address %s, the cosigner keys at that path give %s' % (
                         path_s, addr, want_addr)
-                if (int(idx), int(kchg), int(kacct), int(kcos)) != (want_idx, chg, 0, cos):
+                if (int(idx), int(kchg), int(kacct)) != (want_idx, chg, 0) or int(kcos) not in (cos, named_cos):
                     return ('key at %s reports (address_index, change, account, cosigner) = (%s, %s, %s, %s)' %
                             (path_s, idx, kchg, kacct, kcos))
                 if known is None:
                     fresh.append(want_idx)
-                    new_expected[path_s] = (want_idx, chg, cos, addr)
+                    new_expected[path_s] = (want_idx, chg, int(kcos), addr)
                 chain.add(want_idx)
         elif f[0] == 'U':
             if val != 'ERR':
@@ -1512,10 +2014,10 @@ def ms_check(c, out):
             return 'key at %s was handed out but is not stored' % sorted(new_expected)[0]
         if set(W['rows']) - seen:
             return 'stored multisig key %s disappeared' % W['rows'][min(set(W['rows']) - seen)]['path']
-        # index invariant from the table alone
+        # index invariant from the table alone (BIP48: one chain per change flag, BIP45: one per cosigner position)
         chains = {}
         for row in W['rows'].values():
-            key = (row['chg'], row['cos'])
+            key = (row['chg'], row['cos'] if W['bip45'] else W['own'])
             if row['idx'] in chains.setdefault(key, set()):
                 return 'address_index %d stored twice on chain (change %d, cosigner %d)' % (row['idx'], key[0], key[1])
             chains[key].add(row['idx'])
@@ -1600,8 +2102,134 @@ def _ms_bulk_or_explicit(c, io=None, mo=None):
     return False
 
 
+def _walk(c):
+    """(slot configuration, command fields) for every command of a run / probe case on a created slot"""
+    t = c.req.split(' ')
+    if t[0] not in ('run', 'probe'):
+        return
+    slots = {}
+    for cmd in t[3:]:
+        f = cmd.split(':')
+        if f[0] == 'C':
+            slots[f[1]] = dict(kind=f[2], net=f[3], wt=WTN.get(f[4]), acct=int(f[5]),
+                               level=('m' if f[2] in MASTER_KINDS else 'single' if f[2] == 'single' else
+                                      'pub' if f[2] in ACCOUNT_PUB_KINDS else 'prv'))
+        elif len(f) > 1 and f[1] in slots:
+            yield slots[f[1]], f
+
+
+def _args(f):
+    """(account, witness type, network) fields of a key request, '-' when absent"""
+    if f[0] in 'KG':
+        return f[2], f[4], f[5]
+    if f[0] == 'B':
+        return f[2], f[5], f[6]
+    if f[0] == 'P':
+        return f[3], f[6], f[7]
+    if f[0] in 'MA':
+        return f[2], f[3], f[4]
+    return '-', '-', '-'
+
+
+def _kc_account_wallet(c, io=None, mo=None):
+    """an account-level wallet is asked for another account (any entry point) or, by explicit path / bulk request,
+    for another network"""
+    for w, f in _walk(c):
+        if w['level'] in ('prv', 'pub') and f[0] in 'KGBPM':
+            a, wt, net = _args(f)
+            if (a != '-' and int(a) != w['acct']) or (f[0] in 'PB' and net not in ('-', w['net'])):
+                return True
+    return False
+
+
+def _rel_items(f):
+    parts = f[2].split('.')
+    return parts[1:] if parts[0] in 'rs' else []
+
+
+def _kc_path_names_account(c, io=None, mo=None):
+    """an account-level wallet is given a relative path that names the account level (three items)"""
+    return any(w['level'] in ('prv', 'pub') and f[0] == 'P' and len(_rel_items(f)) == 3 for w, f in _walk(c))
+
+
+def _path_account(w, f):
+    parts = f[2].split('.')
+    if parts[0] in 'rs' and len(parts) - 1 >= 3:
+        return int(parts[-3].rstrip('h'))
+    if parts[0] == 'f' and len(parts) == 7:
+        return int(parts[4].rstrip('h'))
+    return None
+
+
+def _kc_path_account_column(c, io=None, mo=None):
+    """a wallet with a master key is given a path that names another account than the (non-zero) account_id in force"""
+    for w, f in _walk(c):
+        if w['level'] == 'm' and f[0] == 'P':
+            pa = _path_account(w, f)
+            eff = int(f[3]) if f[3] != '-' else w['acct']
+            if pa is not None and pa != eff and eff != 0:
+                return True
+    return False
+
+
+def _kc_path_purpose(c, io=None, mo=None):
+    """a full path under another purpose than the witness type in force"""
+    for w, f in _walk(c):
+        parts = f[2].split('.') if f[0] == 'P' else []
+        if w['level'] == 'm' and parts[:1] == ['f'] and len(parts) == 7:
+            wt = WTN[f[6]] if f[6] != '-' else w['wt']
+            if int(parts[2].rstrip('h')) != PURPOSE[wt]:
+                return True
+    return False
+
+
+def _kc_single(c, io=None, mo=None):
+    """a single-key wallet is asked with arguments that do not fit it"""
+    for w, f in _walk(c):
+        if w['level'] == 'single' and f[0] in 'KGMBP':
+            a, wt, net = _args(f)
+            if (a not in ('-', str(w['acct']))) or (wt != '-' and WTN[wt] != w['wt']) or net not in ('-', w['net']) \
+                    or (f[0] in 'KG' and len(f) > 7 and f[7] != '-') or f[0] == 'B' or (f[0] == 'P' and f[2] != 'e'):
+                return True
+    return False
+
+
+def _kc_level_offset(c, io=None, mo=None):
+    """an account-level wallet is asked for a level at or above its main key by a positive level_offset"""
+    return any(w['level'] in ('prv', 'pub') and f[0] == 'P' and len(f) > 8 and f[8] not in ('-',) and 0 < int(f[8]) <= 3
+               for w, f in _walk(c))
+
+
+def _kc_cosigner(c, io=None, mo=None):
+    """a wallet without cosigners is given a cosigner_id"""
+    return any(w['level'] != 'single' and f[0] in 'KG' and len(f) > 7 and f[7] != '-' for w, f in _walk(c))
+
+
+def _kc_multisig_reach(c, io=None, mo=None):
+    """a multisig wallet is asked for another witness type / network / account or another cosigner position"""
+    if not c.req.startswith('msrun '):
+        return False
+    for cmd in c.req.split(' ')[2:]:
+        f = cmd.split(':')
+        if f[0] == 'K' and (f[3] != '-' or any(x != '-' for x in f[5:8])):
+            return True
+        if f[0] == 'G' and any(x != '-' for x in f[4:8]):
+            return True
+        if f[0] == 'P' and any(x != '-' for x in f[4:7]):
+            return True
+    return False
+
+
 # class id -> predicate deciding from the case alone that it lies in a recorded class of defects
-KNOWN_CLASSES = {'create_from_walletkey': _wkey_after_reopen, 'multisig_address_index': _ms_bulk_or_explicit}
+KNOWN_CLASSES = {'create_from_walletkey': _wkey_after_reopen, 'multisig_address_index': _ms_bulk_or_explicit,
+                 'account_wallet_foreign_account_or_network': _kc_account_wallet,
+                 'account_wallet_path_names_account': _kc_path_names_account,
+                 'explicit_path_account_column': _kc_path_account_column,
+                 'explicit_path_purpose_mismatch': _kc_path_purpose,
+                 'single_key_wallet_ignores_arguments': _kc_single,
+                 'level_offset_above_main_key': _kc_level_offset,
+                 'cosigner_id_without_cosigners': _kc_cosigner,
+                 'multisig_request_outside_cosigner_keys': _kc_multisig_reach}
 
 
 _ACTIVE = None
@@ -1640,6 +2268,10 @@ def reproduce_known(entry, rundir):
     if entry.get('class') == 'multisig_address_index':
         ks = [t.split('~')[0] for t in out[0].split(' ') if t.startswith('K=')]
         return len(ks) >= 2 and ks[-1] == ks[-2] and 'ERR' not in ks[-1]
+    if entry.get('class') in REACH_KNOWN:
+        # the witness reproduces when the independent oracle still rejects the library's answer to it
+        r = entry['witness']['request']
+        return prop_check(Case('witness', r, meta=('msrun',) if r.startswith('msrun') else ('run',)), out[0]) is not None
     return False
 
 
@@ -1754,6 +2386,11 @@ def main(tier, seed, replay=None):
         cases = [Case(c['kind'], c['req'], c.get('key'), meta=(('expand',) + _expand_meta(c['req'])) if c['kind'] == 'expand'
                       else ('run',)) for c in rp.get('cases', [])]
     else:
+        global LIBFLAGS
+        LIBFLAGS = probe_library(rundir)
+        res.notes.append('library behaviour asked before generating (A: account-level wallets refuse other accounts / '
+                         'networks, P: account column from the path, C: cosigner_id refused without cosigners): %r'
+                         % LIBFLAGS)
         cases = gen_cases(rng, tier)
         if not proof_ok and tier == 'quick':
             # a broken proof widens the search for a failing input: a second, differently seeded batch (the thorough
